@@ -345,6 +345,27 @@ def zipParse (hp : String) : List Rec → List (List LibEnt) → Except String (
     let t ← zipParse hp rs libs.tail
     pure (showRec r p :: t)
 
+open ObiVerif.HeaderFast in
+/-- the fast functions against the functions of the theorems, on the data of a small case (`rt`, `conc`) -/
+def fastAgrees (fm : String) (si : UInt8) (recs : List InRec) (text : Bytes) : Bool :=
+  (if fm = "fastq" then
+     (match parseFastqF si true text, parseFastq si true text with
+      | .ok a, .ok b => a == b
+      | .error a, .error b => a == b
+      | _, _ => false)
+   else
+     (match parseFastaF text, parseFasta text with
+      | .ok a, .ok b => a == b
+      | .error a, .error b => a == b
+      | _, _ => false))
+  && recs.all (fun r =>
+      let i := info goJson r.ann r.defn
+      infoF r.ann r.defn == i && fold60F r.seq == fold60 r.seq
+        && (match decodeObjF i, ObiVerif.Json.decodeObj i with
+            | some a, some b => encodeObjF a == ObiVerif.Json.encodeObj b
+            | none, none => true
+            | _, _ => false))
+
 def rtRun (fm hp : String) (so si : UInt8) (recs : List InRec) (aug : List (Bytes × List LibEnt)) : String :=
   if recs.any (fun r => !annOK r.ann) then "NOT-ANNOK" else
   -- the header is printed by the model's encoder (`info goJson`), not taken from the harness
@@ -411,27 +432,6 @@ def concRun (main aug : List String) : String :=
 quality lines at and above 4096 / 8192 / 65536 / 1 MiB), expanded by the same rules as `c02BigExpand` of the harness and
 run through the linear functions of `Model/HeaderFast.lean` (proved equal to the functions of the theorems in
 `Lemmas/HeaderFast.lean`); results are lengths and FNV-1a digests instead of the bytes -/
-
-open ObiVerif.HeaderFast in
-/-- the fast functions against the functions of the theorems, on the data of a small case (`rt`, `conc`) -/
-def fastAgrees (fm : String) (si : UInt8) (recs : List InRec) (text : Bytes) : Bool :=
-  (if fm = "fastq" then
-     (match parseFastqF si true text, parseFastq si true text with
-      | .ok a, .ok b => a == b
-      | .error a, .error b => a == b
-      | _, _ => false)
-   else
-     (match parseFastaF text, parseFasta text with
-      | .ok a, .ok b => a == b
-      | .error a, .error b => a == b
-      | _, _ => false))
-  && recs.all (fun r =>
-      let i := info goJson r.ann r.defn
-      infoF r.ann r.defn == i && fold60F r.seq == fold60 r.seq
-        && (match decodeObjF i, ObiVerif.Json.decodeObj i with
-            | some a, some b => encodeObjF a == ObiVerif.Json.encodeObj b
-            | none, none => true
-            | _, _ => false))
 
 def alphaOf (a : Char) : Array UInt8 :=
   if a = 'h' then "a\"\\{}[];=>@:,' b".toUTF8.data
